@@ -364,15 +364,20 @@ def h_net_sample(w, st, rec):
     log0 = len(peer().log)
     npre = digest(n)
     seed = dec(rec.get("seed"))
-    out = w.call(lambda: obj.sample(n, random_state=seed))
+    out = w.call(lambda: obj.sample(n, random_state=seed), arm=rec.get("arm"))
+    alloc_calls = w.last_seam_calls.get("pd.DataFrame", 0)
+    alloc_failed = rec.get("arm") is not None and out[0] == "exc" and isinstance(out[1], MemoryError)
+    if alloc_failed:
+        w.faults["alloc.fail"] += 1
+        net["fmask"] |= 8
     peer().disarm()
-    failed_peer = peer().fired > fired0
+    failed_peer = (peer().fired > fired0) or rec.get("arm") is not None
     msgs = peer().log[log0:]
     w.apis[site] += 1
     net["nsamples"] += 1
     if digest(n) != npre:
         w.violate("argument_modified", site, {"which": "n"})
-    if failed_peer:
+    if peer().fired > fired0:
         w.faults["peer.error"] += 1
         w.faults["peer.error:predict"] += 1
         net["fmask"] |= 2
@@ -458,7 +463,17 @@ def h_net_sample(w, st, rec):
             if o2[0] == "ok":
                 for cls, s2, detail in check_sample(w, st, rec["net"], net, dict(rec, n=n), o2[1], peer().log[l0:]):
                     w.violate("wrong_data_after_peer_fault", s2, dict(detail, underlying=cls, failed_message=k))
-        if M and rec.get("seed") is not None:
+        # ... and over the data-frame constructions of this call (failing allocations)
+        for k in range(1, min(alloc_calls, 10) + 1):
+            l0 = len(peer().log)
+            o2 = w.call(lambda: obj.sample(n, random_state=seed), arm=["pd.DataFrame", k, "MemoryError"])
+            w.probes["sweep.alloc_fault_positions"] += 1
+            if o2[0] == "exc" and isinstance(o2[1], MemoryError):
+                w.faults["alloc.fail"] += 1
+            if o2[0] == "ok":
+                for cls, s2, detail in check_sample(w, st, rec["net"], net, dict(rec, n=n), o2[1], peer().log[l0:]):
+                    w.violate("wrong_data_after_peer_fault", s2, dict(detail, underlying=cls, failed_allocation=k))
+        if (M or alloc_calls) and rec.get("seed") is not None:
             o3 = w.call(lambda: obj.sample(n, random_state=seed))
             if o3[0] != "ok" or digest(o3[1]) != digest(S):
                 w.violate("seeded_sample_differs", site, {"what": "network not as usable as before after peer failures",
@@ -743,8 +758,12 @@ def generate(run_seed, deep=False):
             ops.append({"c": c, "op": "net.sample", "net": nid, "invalid": g.choice(sorted(INVALID_N)),
                         "seed": g.choice(cfg["seeds"] + [None])})
         elif r < 0.72 and "peer.error" in faults:
-            ops.append({"c": c, "op": "net.sample", "net": nid, "n": gen_n(g, meta), "seed": g.choice(cfg["seeds"] + [None]),
-                        "peer_fault": ["predict", g.randint(1, 4)]})
+            rec = {"c": c, "op": "net.sample", "net": nid, "n": gen_n(g, meta), "seed": g.choice(cfg["seeds"] + [None])}
+            if g.random() < 0.7:
+                rec["peer_fault"] = ["predict", g.randint(1, 4)]
+            else:
+                rec["arm"] = ["pd.DataFrame", g.randint(1, 4), "MemoryError"]
+            ops.append(rec)
         elif r < 0.8 and "caller.scribble_input" in faults:
             ops.append({"c": c, "op": "fault.scribble", "target": nid + g.choice([".graph", ".data"]),
                         "how": g.choice(["zero", "transpose_edges"])})
@@ -821,7 +840,7 @@ REQUIRED_PROBES = ["sources>=2.independence_checkable", "sources>=2.independence
                    "non_source.parents>=2", "equal_sized_environments", "seed0",
                    "seeded_pair.nontrivial", "seeded_pair.seed0", "seeded_pair.numpy_integer_seed", "seeded_pair.sep.global_reseed",
                    "seeded_pair.k>=2.non_source", "peer.k>=2.non_source", "peer_fault.fit", "verbose",
-                   "sample_after_scribble_input", "n:none", "n:int", "n:list", "sweep.peer_fault_positions",
+                   "sample_after_scribble_input", "n:none", "n:int", "n:list", "sweep.peer_fault_positions", "sweep.alloc_fault_positions",
                    "peer_fault.predict.raised", "data.non_contiguous_views", "data.fortran_order", "data.dtype:<i8",
                    "data.dtype:<f4"] + \
                   ["invalid:" + k for k in sorted(INVALID_NEW)] + ["invalid:" + k for k in sorted(INVALID_N)]
